@@ -235,8 +235,8 @@ export async function run(ctx) {
   // enum's member, a constant, a template over a constant, an earlier member), referenced one member
   // at a time from another module - which may declare the same names with other values
   if (ctx.shard === 7 % ctx.of) {
-    const lib = 'export const PREFIX = "pre" as const;\nexport enum Color { Red = "red", Blue = "blue" }\nexport enum Alias { Primary = Color.Red, Second = PREFIX, Fourth = Alias.Primary, Lit = "lit" }\n';
-    const want = { Primary: "red", Second: "pre", Fourth: "red", Lit: "lit" };
+    const lib = 'export const PREFIX = "pre" as const;\nexport enum Color { Red = "red", Blue = "blue" }\nexport enum Alias { Primary = Color.Red, Second = PREFIX, Fourth = Alias.Primary, Fifth = Primary, Lit = "lit" }\n';
+    const want = { Primary: "red", Second: "pre", Fourth: "red", Fifth: "red", Lit: "lit" };
     const shadows = ["", 'const PREFIX = "entry-pre" as const;\nenum Color { Red = "entry-red" }\n', 'type PREFIX = 1;\n'];
     const styles = [
       ["named", 'import { Alias } from "./lib";\n', (m) => `Alias.${m}`],
